@@ -47,7 +47,7 @@ ASSUMPTIONS = [
 ]
 REQUIRED_COUNTERS = ["built", "verify_clean_pre", "walker_accepted", "signatures_verified", "parse_equal", "verify_clean_post",
                      "reexport_identical", "srk_hash_checked", "flips_judged", "cli_runs", "encrypted_images_decrypted",
-                     "second_exports_judged"]
+                     "second_exports_judged", "second_srk_tables"]
 CASE_TIMEOUT_S = 1800
 WATCHDOG_S = {"quick": 1500, "thorough": 7200}
 
@@ -304,6 +304,14 @@ def gen_spec(rng, info, fam, rev, cver, mem, k, tier, force=None):
                     "fuse_version": _pick(rng, [0, 1, 255, rng.randrange(256)]),
                     "via": "yaml" if fam in info["cert_families"] and rng.random() < 0.6 else "bin",
                 }
+            if cver == 2 and not c["cert"] and force.get("srk2", rng.random() < 0.3):
+                # SRK table array with TWO tables (the second one is meant for a post-quantum key; any supported key type is
+                # accepted) and a second container signature by the used record of the second table
+                k2 = _pick(rng, KINDS[:3])
+                pool2 = [n for n in pki.names(k2) if n not in c["srk_names"]]
+                rng.shuffle(pool2)
+                if len(pool2) >= 4:
+                    c["srk2"] = {"kind": k2, "names": pool2[:4], "sign_via": _pick(rng, ["key", "provider"])}
             if cver == 1 and force.get("cert"):
                 c["cert"] = {"key": order[0], "perms": ["container"], "uuid": None, "perm_data": None, "fuse_version": 0, "via": "bin"}
         if force.get("blob", rng.random() < 0.25):
@@ -318,7 +326,7 @@ def gen_spec(rng, info, fam, rev, cver, mem, k, tier, force=None):
         nimg = max(1, min(nimg, imax, budget)) if not force.get("nimg") else nimg
         if not last and not force.get("nimg") and rng.random() > 0.05:
             # a non-last container must fit its fixed slot (format arithmetic); 5 % keep the overflow to exercise the refusal
-            while nimg > 1 and R.header_length(cver, nimg, kind, kind if c["cert"] else None, c["blob"]["bits"] if c["blob"] else None) > R.CONTAINER_SLOT[cver]:
+            while nimg > 1 and R.header_length(cver, nimg, kind, kind if c["cert"] else None, c["blob"]["bits"] if c["blob"] else None, (c.get("srk2") or {}).get("kind")) > R.CONTAINER_SLOT[cver]:
                 nimg -= 1
         budget = max(1, budget - nimg)
         for _ in range(nimg):
@@ -423,6 +431,14 @@ def materialise(spec, rng, wdir):
                     with open(cp, "wb") as f:
                         f.write(co.export())
                 cc["certificate"] = cp
+            if c.get("srk2"):
+                s2 = c["srk2"]
+                cc["srk_table"]["srk_table_#2"] = {"flag_ca": c["flag_ca"], "srk_array": [pki.path(n, what, fmt) for n in s2["names"]]}
+                kp2 = pki.path(s2["names"][c["used"]], "priv", c["key_fmt"])
+                if s2["sign_via"] == "provider":
+                    cc["signature_provider_#2"] = f"type=file;file_path={kp2}"
+                else:
+                    cc["signing_key_#2"] = kp2
             kp = pki.path(signer, "priv", c["key_fmt"])
             if c["sign_via"] == "provider":
                 cc["signature_provider"] = f"type=file;file_path={kp}"
@@ -496,7 +512,7 @@ def _model_overlap(spec, info):
     cver = spec["cver"]
     slot = R.CONTAINER_SLOT[cver]
     cs = spec["containers"]
-    hl = [R.header_length(cver, len(c["images"]), c["kind"], c["kind"] if c["cert"] else None, c["blob"]["bits"] if c["blob"] else None) for c in cs]
+    hl = [R.header_length(cver, len(c["images"]), c["kind"], c["kind"] if c["cert"] else None, c["blob"]["bits"] if c["blob"] else None, (c.get("srk2") or {}).get("kind")) for c in cs]
     for i in range(len(cs) - 1):
         if hl[i] > slot:
             return f"header of container {i} is {hl[i]:#x} bytes, its slot {slot:#x}"
@@ -593,6 +609,20 @@ def _compare_walker(ctx, spec, info, rep, inputs, bad):
                         bad("srk-record-data-hash-of-pool-key", {"where": where, "record": j, "name": name})
             if spec["cver"] == 2 and not _same_key(w["srk"]["keys"][0], c["srk_names"][c["used"]]):
                 bad("srk-data-key", {"where": where})
+            if len(w["srk"]["tables"]) != (2 if c.get("srk2") else 1) or len(w["signatures"]) != len(w["srk"]["tables"]):
+                bad("srk-table-count", {"where": where, "tables": len(w["srk"]["tables"]), "signatures": len(w["signatures"]), "asked": 2 if c.get("srk2") else 1})
+            elif c.get("srk2"):
+                ctx.count("second_srk_tables")
+                t2 = w["srk"]["tables"][1]
+                for j, (rec, name) in enumerate(zip(t2["records"], c["srk2"]["names"])):
+                    a, b_ = _key_bytes(name)
+                    keyb = int.from_bytes(a, "big").to_bytes(rec["len1"], "big") + int.from_bytes(b_, "big").to_bytes(rec["len2"], "big")
+                    sd = struct.pack("<BHBBBBB", 0, 8 + len(keyb), R.TAG_SRK_DATA, j, 0, 0, 0) + keyb
+                    _n, dg = R.record_hash(rec["hash"], sd)
+                    if rec["kind"] != c["srk2"]["kind"] or rec["data_hash"] != dg + bytes(64 - len(dg)):
+                        bad("srk-record-of-second-table", {"where": where, "record": j, "name": name, "kind": rec["kind"]})
+                if not _same_key(w["srk"]["keys"][1], c["srk2"]["names"][c["used"]]):
+                    bad("srk-data-key-of-second-table", {"where": where})
             if not w["signature_ok"]:
                 bad("signature-not-judged", {"where": where, "unsupported": w.get("unsupported")})
             else:
@@ -772,7 +802,7 @@ def build_and_judge(ctx, spec, info, wdir, tag="build"):
     ctx.count("overlap_checked", len(rep["intervals"]))
     for c, w in zip(spec["containers"], rep["containers"]):
         # the format arithmetic that justifies "Image overlapping" refusals must reproduce the header length found in the binary
-        hl = R.header_length(cver, len(c["images"]), c["kind"], c["kind"] if c["cert"] else None, c["blob"]["bits"] if c["blob"] else None)
+        hl = R.header_length(cver, len(c["images"]), c["kind"], c["kind"] if c["cert"] else None, c["blob"]["bits"] if c["blob"] else None, (c.get("srk2") or {}).get("kind"))
         if hl != w["length"]:
             raise core.Inconclusive(f"header length model {hl:#x} != length in the binary {w['length']:#x} ({_brief(spec)})")
     _compare_walker(ctx, spec, info, rep, inputs, bad)
@@ -863,7 +893,7 @@ def _brief(spec):
     return {"family": spec["family"], "revision": spec["revision"], "cver": spec["cver"], "mem": spec["mem"],
             "containers": [{"kind": c["kind"], "used": c["used"], "mask": c["mask"], "fuse": c["fuse"], "sw": c["sw"], "gdet": c["gdet"],
                             "check_all": c["check_all"], "cert": c["cert"] and {"perms": c["cert"]["perms"], "via": c["cert"]["via"]},
-                            "blob": c["blob"] and c["blob"]["bits"], "srk_src": c["srk_src"],
+                            "blob": c["blob"] and c["blob"]["bits"], "srk_src": c["srk_src"], "srk2": (c.get("srk2") or {}).get("kind"),
                             "images": [[i["size"], i["core"], i["type"], i["hash"], "enc" if i["enc"] else "plain",
                                         hex(i["offset"]) if i["explicit"] else "auto"] for i in c["images"]]} for c in spec["containers"]]}
 
